@@ -573,6 +573,69 @@ func c13Wildcard(t *testing.T, o *vOut, ca *vCA) {
 	}
 }
 
+// ... and also when a SubjectTransformer maps the server name to another subject (a host served
+// by a wildcard certificate that is obtained on demand): cache misses — nothing stored, issuer
+// up or down — leave both wait-channel maps empty once the handshakes have returned, and the
+// next handshake is served (from the cache) or starts the next attempt.
+func c13Transformer(t *testing.T, o *vOut, ca *vCA) {
+	for _, issuerUp := range []bool{true, false} {
+		synctest.Test(t, func(t *testing.T) {
+			st := vNewMem()
+			iss := vNewIssuer("vi", ca)
+			if !issuerUp {
+				iss.Behave = func(int, []string) error { return ErrNoRetry{errVInjected} }
+			}
+			const wild, host = "*.tr.c13.example", "www.tr.c13.example"
+			od := &OnDemandConfig{DecisionFunc: func(context.Context, string) error { return nil }}
+			cache, cfg := vNewCfg(st, []Issuer{iss}, func(cf *Config, co *CacheOptions) {
+				cf.OnDemand = od
+				cf.SubjectTransformer = func(_ context.Context, name string) string {
+					if strings.HasSuffix(name, ".tr.c13.example") {
+						return wild
+					}
+					return name
+				}
+				co.RenewCheckInterval = 100000 * time.Hour
+				co.OCSPCheckInterval = 100000 * time.Hour
+			})
+			defer cache.Stop()
+			hsQuietMaintenance(cache)
+			for round := 0; round < 3; round++ {
+				var wg sync.WaitGroup
+				errs := make([]error, 3)
+				for i := range errs {
+					wg.Add(1)
+					go func() {
+						defer wg.Done()
+						ctx, cancel := context.WithTimeout(context.Background(), 10*time.Minute)
+						defer cancel()
+						_, errs[i] = cfg.GetCertificateWithContext(ctx, hsHello(host))
+					}()
+				}
+				wg.Wait()
+				synctest.Wait()
+				time.Sleep(20 * time.Minute)
+				synctest.Wait()
+				replay := map[string]any{"script": fmt.Sprintf("subject-transformer issuerUp=%v", issuerUp), "round": round}
+				if left := hsMapsLeft(); len(left) > 0 {
+					replay["left"] = left
+					o.Mon("C13 wait-channel-maps-not-empty", replay)
+					hsClearMaps()
+					break
+				}
+				for _, err := range errs {
+					if issuerUp && err != nil {
+						replay["error"] = err.Error()
+						o.Mon("C13 transformer handshake-failed-with-issuer-up", replay)
+						break
+					}
+				}
+			}
+			o.Stat("subject_transformer_scenarios", 1)
+		})
+	}
+}
+
 func c13Scripts(thorough bool) []c13Script {
 	var out []c13Script
 	holds := []time.Duration{0, time.Second, 30 * time.Second, 119 * time.Second, 121 * time.Second, 150 * time.Second}
@@ -623,6 +686,7 @@ func TestVerifC13(t *testing.T) {
 	rng := vRand()
 	scripts := c13Scripts(vThorough())
 	c13Wildcard(t, o, ca)
+	c13Transformer(t, o, ca)
 	// seeded extra scripts
 	extra := 120
 	if vThorough() {
